@@ -6,6 +6,7 @@ package state
 import (
 	"errors"
 	"fmt"
+	"sort"
 	"strings"
 
 	memdb "github.com/hashicorp/go-memdb"
@@ -693,7 +694,11 @@ func getExistingJWTProvidersByName(tx ReadTxn, kn configentry.KindName) (map[str
 func validateJWTProvider(existingProviderNames map[string]*structs.JWTProviderConfigEntry, referencedProviderNames map[string]struct{}) error {
 	var result error
 
-	for referencedProvider := range referencedProviderNames {
+	// Report missing providers in sorted order so that the error text does not
+	// depend on map iteration order (this runs inside the Raft FSM).
+	referenced := maps.SliceOfKeys(referencedProviderNames)
+	sort.Strings(referenced)
+	for _, referencedProvider := range referenced {
 		_, found := existingProviderNames[referencedProvider]
 		if !found {
 			result = multierror.Append(result, fmt.Errorf("Referenced JWT Provider does not exist. Provider Name: %s", referencedProvider)).ErrorOrNil()
